@@ -443,7 +443,13 @@ func C12(r *vf.Run) {
 					}
 					var target uint32
 					tclass := ""
-					switch g.Intn(5) {
+					switch g.Intn(6) {
+					case 5: // an address one bit away from one the program reaches (mirror banks, neighbouring pages)
+						j := g.Intn(len(pcs))
+						target, tclass = pcs[j]^(1<<uint(g.Intn(24))), "one-bit-off"
+						if g.Bool() {
+							target = pcs[j] ^ 0x800000
+						}
 					case 0:
 						target, tclass = pcs[0], "already-there"
 					case 1:
